@@ -87,6 +87,7 @@ func runC05(c *Ctx) {
 	c05FailParks(c, m)
 	c05WriteRegion(c, m)
 	c05Wrap(c, m)
+	c05HdrLen(c, m)
 	if c.Tier == "thorough" && c.goos == "linux" && c.arch == "amd64" {
 		c05BCE(c, m, "C05.bce-crosscheck", []string{"internal/counter", "internal/upload", "internal/telemetry", "internal/mmap", "internal/config", "internal/configstore", "counter", "."}, fns)
 	}
@@ -566,4 +567,50 @@ func c05BCE(c *Ctx, m *Module, rule string, pkgs []string, fns []*ssa.Function) 
 	}
 	r.Check(rule, "compiler's unproven bounds checks are all enumerated", "-", n > 0 && miss == 0, fmt.Sprintf("%d unproven checks reported by the compiler in reachable files, %d without a matching obligation", n, miss))
 	r.Analysed["compiler_unproven_bounds_checks"] = n
+}
+
+// c05HdrLen: the invariant the wrap-aware prover relies on: every value stored into
+// mappedFile.hdrLen is at most pageSize (so hdrLen + small constants cannot wrap in uint32).
+func c05HdrLen(c *Ctx, m *Module) {
+	r := c.R
+	mh := m.Func("internal/counter", "mappedHeader")
+	okHdr := false
+	for _, b := range mh.Blocks {
+		ret, ok := b.Instrs[len(b.Instrs)-1].(*ssa.Return)
+		if !ok || !isNilConst(ret.Results[1]) {
+			continue
+		}
+		p := newProver()
+		ln := p.lenOf(ret.Results[0])
+		okHdr, _ = p.prove(linConst(hdrLenBound).add(ln, -1), p.factsLinAt(ret))
+	}
+	r.Check("C05.hdrlen-bounded", "mappedHeader/header length ≤ pageSize", m.Pos(mh.Pos()), okHdr, "len(hdr) = round(prefix+4+len(meta), 32) with len(meta) ≤ maxMetaLen")
+	n := 0
+	for _, fn := range m.PkgFuncs("internal/counter") {
+		for _, in := range instrsOf(fn) {
+			st, ok := in.(*ssa.Store)
+			if !ok {
+				continue
+			}
+			fa, ok := st.Addr.(*ssa.FieldAddr)
+			if !ok {
+				continue
+			}
+			if _, f, _ := fieldAddrName(fa); f != "hdrLen" || namedType(fa.X.Type()) != "internal/counter.mappedFile" {
+				continue
+			}
+			n++
+			d := describe(st.Val)
+			ok2 := false
+			if strings.HasPrefix(d, "conv<uint32>(builtin:len(internal/counter.mappedHeader(") && strings.HasSuffix(d, ")#0))") {
+				ok2 = okHdr
+			} else {
+				p := newProver()
+				v := p.norm(st.Val)
+				ok2, _ = p.prove(linConst(hdrLenBound).add(v, -1), p.factsLinAt(st))
+			}
+			r.Check("C05.hdrlen-bounded", fname(fn)+"/hdrLen ≤ pageSize", m.Pos(st.Pos()), ok2, "value stored: "+shortDesc(d))
+		}
+	}
+	r.Check("C05.hdrlen-bounded", "stores to hdrLen enumerated", "-", n >= 2, fmt.Sprintf("%d", n))
 }
